@@ -12,6 +12,7 @@ import (
 	"math/big"
 	"strings"
 	"sync"
+	"sync/atomic"
 	"time"
 	"verif/harness/pki"
 
@@ -203,6 +204,76 @@ func liveExpiry(r *core.Run, which string) {
 	}
 }
 
+// slowExpiry: the check begins while everything is current; a distribution
+// point answers only after a list's next-update instant has passed (its own
+// list, or - with two points - the list of the point asked next). The list was
+// expired when the library obtained it, so OK is a violation however the
+// machine is loaded (the fetcher double reads the clock right before it
+// returns).
+func slowExpiry(r *core.Run, twoPoints bool) {
+	fam := sims.Fam(2, "p256", false)
+	n := 1
+	if twoPoints {
+		n = 2
+	}
+	sh := sims.HTTPShape(0, n)
+	kit := fam.KitFor(0, sh, sims.Shape{})
+	T := time.Now().Truncate(time.Second).Add(2 * time.Second)
+	mk := func(next time.Time, num int64) *crl.Bundle {
+		l := &pki.CRL{IssuerRawName: kit.Issuer.RawSubject, SignKey: kit.IKey, NextUpdate: next, Number: big.NewInt(num)}
+		return &crl.Bundle{BaseCRL: pki.MustParseCRL(pki.BuildCRL(l))}
+	}
+	ft := sims.NewFetcher()
+	url0 := fam.URL(0, "d", 0, "http")
+	var returnedAfter atomic.Bool
+	if twoPoints {
+		ft.Bundles[url0] = mk(pki.Future, 800) // slow, long-lived
+		ft.Bundles[fam.URL(0, "d", 1, "http")] = mk(T, 801)
+	} else {
+		ft.Bundles[url0] = mk(T, 800)
+	}
+	var lateOther atomic.Bool // the second point was asked after the instant
+	ft.Hook = func(u string) {
+		if u != url0 {
+			if time.Now().After(T) {
+				lateOther.Store(true)
+			}
+			return
+		}
+		for !time.Now().After(T.Add(20 * time.Millisecond)) {
+			time.Sleep(5 * time.Millisecond)
+		}
+		returnedAfter.Store(true)
+	}
+	v, err := revocation.NewWithOptions(revocation.Options{OCSPHTTPClient: sims.DeadClient(), CRLFetcher: ft})
+	if err != nil {
+		r.Inconclusive("slow expiry: " + err.Error())
+		return
+	}
+	chain := fam.Chain([]sims.Shape{sh, {}})
+	began := time.Now()
+	var rs []*result.CertRevocationResult
+	var cerr error
+	if p := core.Guard(func() {
+		rs, cerr = v.ValidateContext(context.Background(), revocation.ValidateContextOptions{CertChain: chain})
+	}); p != nil {
+		r.Count("panicked", 1)
+		return
+	}
+	r.Eval(1)
+	if !began.Before(T) || !returnedAfter.Load() || (twoPoints && !lateOther.Load()) {
+		r.Inconclusive("slow expiry: the call did not straddle the instant")
+		return
+	}
+	r.Count("slow-expiry-calls-straddling-the-instant", 1)
+	r.Nontrivial(fmt.Sprintf("slow-expiry two-points=%v", twoPoints))
+	if cerr == nil && len(rs) == 2 && rs[0] != nil && rs[0].Result == result.ResultOK {
+		r.Violation(fmt.Sprintf("expired-list-accepted-after-slow-fetch:two-points=%v", twoPoints),
+			"a check that began before a list's next-update instant obtained that list only after the instant (slow distribution point) and still came out OK",
+			map[string]any{"note": "live observation: re-run the check", "two_points": twoPoints})
+	}
+}
+
 func run(r *core.Run) int {
 	r.Rule = "CRL behaviour alphabet assigned to 1..3 distribution points in every order x {caller-supplied fetcher, real HTTPFetcher over the simulated network} x certificate with/without freshest-CRL extension x issuer with/without cRLSign x {EC, RSA issuer}; pairs of points that differ only in their query string (cache on/off); " +
 		"non-trivial = some point is not clean, or a delta is present, or the certificate carries a freshest-CRL pointer; distinct by scenario descriptor"
@@ -282,6 +353,11 @@ func run(r *core.Run) int {
 		w := w
 		live.Add(1)
 		go func() { defer live.Done(); liveExpiry(r, w) }()
+	}
+	for _, two := range []bool{false, true} {
+		two := two
+		live.Add(1)
+		go func() { defer live.Done(); slowExpiry(r, two) }()
 	}
 	r.Set("alphabet_fetcher", sims.CRLBehaviours)
 	r.Assume("live next-update observations: the wall clock does not step backwards during the three seconds they take")
